@@ -675,7 +675,7 @@ def tl_table(case, c):
 
 
 def model_concrete(case, c, mode, bl=None):
-    """-> [(array | 'raise', [look-up per entry])] for io and ic"""
+    """-> [(array | 'raise', [look-up per entry], wf)] for io and ic; wf = NNet.wf of the dump as the driver evaluates it"""
     from . import circ
     if bl is None: bl = enc_blocks(case['blocks'])
     tail = f"{bl} {tl_table(case, c)} {circ.dump_names(c) or '~'} {circ.dump_net(c)}"
@@ -683,7 +683,7 @@ def model_concrete(case, c, mode, bl=None):
     L, res = len(c.lines), []
     for o in out:
         f = o.split(' ')
-        if len(f) != 2: raise ValueError(f'sdfc answered {o[:200]!r}')
+        if len(f) != 3 or f[2] not in ('wf:0', 'wf:1'): raise ValueError(f'sdfc answered {o[:200]!r}')
         if f[0] == 'raise': a = 'raise'
         else:
             a = np.zeros((3, L, 2, 2))
@@ -692,7 +692,7 @@ def model_concrete(case, c, mode, bl=None):
                     k, v = item.split('=')
                     d, l, ip, op = map(int, k.split('.'))
                     a[d, l, ip, op] = int(v) / 1000.0
-        res.append((a, [] if f[1] == '~' else None if f[1] == '-' else f[1].split(',')))
+        res.append((a, [] if f[1] == '~' else None if f[1] == '-' else f[1].split(','), f[2] == 'wf:1'))
     return res
 
 
@@ -719,12 +719,76 @@ def real_looks(case, c):
     return io, ic
 
 
+def real_exits(case, c):
+    """the exit the REAL INTERCONNECT loop takes for every entry (each run alone with values 1), with the kind of warning read
+    from kyupy's log: 'r' raise, 'wp' "No line to annotate pin", 'wn' "No branchfork", else the line index. -> list | None"""
+    import kyupy
+    from kyupy import sdf
+    tlib = get_tlib(case['tlib'])
+    one3 = [1.0, 1.0, 1.0]
+    with quiet():
+        df = sdf.parse(case['sdf'])
+        if df._interconnects is None: return None
+        res = []
+        for e in df._interconnects:
+            buf = io.StringIO()
+            kyupy.log.logfile = buf          # restored by quiet()
+            try:
+                a = sdf.DelayFile('x', {None: [sdf.Interconnect(e[0], e[1], one3, one3)]}).interconnects(c, tlib)
+            except Exception:
+                res.append('r'); continue
+            ls = sorted({int(i[1]) for i in np.argwhere(a != 0)})
+            msg = buf.getvalue()
+            if ls: res.append(str(ls[0]) if len(ls) == 1 and not msg.strip() else 'many:' + ','.join(map(str, ls)) + ':' + msg[:60])
+            elif 'No branchfork' in msg: res.append('wn')
+            elif 'No line to annotate pin' in msg: res.append('wp')
+            else: res.append('silent')      # nothing annotated and nothing said: an entry lost silently
+    return res
+
+
+def model_exits(case, c, mode):
+    """driver `sdfc <mode> icx`: the decidable hypotheses of C14.interconnect_lookup_exits on the dump of the real circuit and the
+    exit `icLookX` names for every INTERCONNECT entry -> ({'wf': bool, 'icStruct': bool}, list | None)"""
+    from . import circ
+    tail = f"{enc_blocks(case['blocks'])} {tl_table(case, c)} {circ.dump_names(c) or '~'} {circ.dump_net(c)}"
+    o = common.run_driver([f'sdfc {mode} icx {tail}'])[0].split(' ')
+    if len(o) != 2 or not o[0].startswith('wf:'): raise ValueError(f'sdfc icx answered {" ".join(o)[:200]!r}')
+    hyp = {k: v == '1' for k, v in (x.split(':') for x in o[0].split(','))}
+    return hyp, ([] if o[1] == '~' else None if o[1] == '-' else o[1].split(','))
+
+
+def exits_corr(ck, case, c, mode):
+    """hypotheses `C.wf`, `icStructOKB C` of the exit theorem evaluated on the real parsed circuit (every generated netlist is
+    well-formed Verilog: falling outside is a broken tie), and the exit per entry, warnings by kind, real loop vs `icLookX`"""
+    try:
+        hyp, mex = model_exits(case, c, mode)
+        rex = real_exits(case, c)
+    except Exception as ex:
+        ck.broken_tie('SDF look-up exits (icLookX, Model/SdfCirc.lean)', f'{type(ex).__name__}: {ex}'[:300], inp=case); return
+    ck.hist['c14-hyp:wf:' + ('inside' if hyp.get('wf') else 'OUTSIDE')] += 1
+    ck.hist['c14-hyp:icStruct:' + ('inside' if hyp.get('icStruct') else 'OUTSIDE')] += 1
+    if not (hyp.get('wf') and hyp.get('icStruct')):
+        ck.broken_tie('hypotheses of C14.interconnect_lookup_exits on a circuit built by verilog.parse',
+                      f'NNet.wf = {hyp.get("wf")}, icStructOKB = {hyp.get("icStruct")} (branchforks={case.get("bf")})', inp=case)
+    for x in (rex or []): ck.hist['c14-hyp:ic-exit:' + ('line' if x.isdigit() else x[:6])] += 1
+    if rex != mex:
+        ck.broken_tie('SDF look-up exits per INTERCONNECT entry (answer / warn by kind / raise): real loop vs icLookX',
+                      f'real {rex} != model {mex}'[:400], inp=case)
+    if rex and 'silent' in rex:
+        ck.broken_tie('INTERCONNECT entry neither annotated nor warned about nor raised on', f'real {rex}'[:300], inp=case)
+
+
 def concrete_corr(ck, case, c, mode, io, ic):
     try:
-        (mio, lio), (mic, lic) = model_concrete(case, c, mode)
+        (mio, lio, wf1), (mic, lic, wf2) = model_concrete(case, c, mode)
         rio, ric = real_looks(case, c)
     except Exception as ex:
         ck.broken_tie('SDF look-up correspondence (Model/SdfCirc.lean)', f'{type(ex).__name__}: {ex}'[:300], inp=case); return
+    # hypothesis `C.wf = true` of pin_lookup_spec / interconnect_lookup_* / iopath_lands_circuit, on the dump of the parsed circuit
+    ck.hist['c14-hyp:sdfc-wf:' + ('inside' if wf1 and wf2 else 'OUTSIDE')] += 1
+    if not (wf1 and wf2):
+        ck.broken_tie('hypothesis NNet.wf of the look-up theorems (Props/C14.lean, section circuit) on a circuit built by verilog.parse',
+                      f'driver sdfc: wf = {wf1}/{wf2} (branchforks={case.get("bf")})', inp=case)
     for which, r, m in (('iopaths', io, mio), ('interconnects', ic, mic)):
         if not same(r, m):
             ck.broken_tie(f'SDF model with concrete look-ups ({which}, start mode {mode})',
@@ -735,6 +799,7 @@ def concrete_corr(ck, case, c, mode, io, ic):
         if r != m:
             ck.broken_tie(f'SDF look-up per entry ({which}): line index chosen by the real loop vs pinLook/icLook',
                           f'real {r} != model {m}'[:400], inp=case)
+    exits_corr(ck, case, c, mode)
 
 
 def same(real, model):
@@ -1067,12 +1132,18 @@ def lookup_raises(ck, mode):
     a pin on a port, a file without top-level block (TypeError) — whole result and per-entry look-up against the real code"""
     v1 = 'module top (a, z);\n  input a;\n  output z;\n  wire n;\n  INV_X1 u1 (.I(a), .ZN(n));\n  INV_X1 u2 (.I(n), .ZN(z));\nendmodule\n'
     v2 = 'module t (a, z);\n  input a;\n  output z;\n  NAND2_X1 u1 (.A1(a), .A2(), .ZN(z));\nendmodule\n'
+    v3 = ('module top (a, z1, z2);\n  input a;\n  output z1;\n  output z2;\n  wire n;\n  INV_X1 u1 (.I(a), .ZN(n));\n'
+          '  INV_X1 u2 (.I(n), .ZN(z1));\n  INV_X1 u3 (.I(n), .ZN(z2));\nendmodule\n')
     E = lambda a, b, io: dict({'a': a, 'b': b, 'vals': [[1000, 2000, 3000]]}, **({'io': 1} if io else {'ic': 1}))
     variants = [(v1, [(['u1'], [E('QQ', 'ZN', True)])]), (v1, [(['u1'], [E('I', 'ZN', True)]), (['u2'], [E('(posedge ZN)', 'ZN', True)])]),
                 (v1, [([], [E('ghost/ZN', 'u2/I', False)])]), (v1, [([], [E('u1/QQ', 'u2/I', False)])]),
                 (v1, [([], [E('a/X', 'u1/I', False)])]), (v1, [([], [E('u1/ZN', 'u2/I', False), E('a', 'u1/I', False), E('u2/ZN', 'z', False)])]),
                 (v1, [(['u1'], [E('I', 'ZN', True)])]), (v2, [(['u1'], [E('A1', 'ZN', True), E('A2', 'ZN', True)])]),
-                (v2, [([], [E('a', 'u1/A2', False)]), (['u1'], [E('A1', 'ZN', True)])])]
+                (v2, [([], [E('a', 'u1/A2', False)]), (['u1'], [E('A1', 'ZN', True)])]),
+                # fan-out: branch fork per reader (bf) / "No branchfork" (no bf); a connection the circuit does not have; a port as destination
+                (v3, [([], [E('u1/ZN', 'u2/I', False), E('u1/ZN', 'u3/I', False), E('a', 'u1/I', False)])]),
+                (v3, [([], [E('u2/ZN', 'u3/I', False)])]), (v3, [([], [E('u1/ZN', 'u3/I', False), E('u3/ZN', 'u2/I', False)])]),
+                (v3, [([], [E('u1/ZN', 'a', False), E('u2/ZN', 'z1', False)])])]
     for bf in (False, True):
         for vi, (ver, bl) in enumerate(variants):
             blocks = [{'insts': insts, 'sections': [es]} for insts, es in bl]
@@ -1151,6 +1222,10 @@ def run(ck):
                        'the look-ups are compared twice: through two tables (line feeding a pin; fork line between two pins) exported from the '
                        'real Circuit by structural search (reader/reader_pin, fork names), independent of sdf.py, and through the modelled '
                        'look-ups pinLook/icLook (Model/SdfCirc.lean) fed with the circuit dump and tlib.cells, per entry (line index / warn / raise)',
+                       'exits of the INTERCONNECT look-up (C14.interconnect_lookup_exits): the hypotheses NNet.wf and icStructOKB are evaluated on the dump of every '
+                       'parsed circuit (tags c14-hyp:wf:*, c14-hyp:icStruct:*; outside = broken tie), and the exit per entry — line / warn "No line to annotate pin" / '
+                       'warn "No branchfork" (kind read from kyupy\'s log) / raise — is compared with icLookX (driver sdfc icx); that verilog.parse always builds '
+                       'this structure is checked there, not proved',
                        'several IOPATHs from one input pin to different outputs overwrite each other by design (one delay per line): '
                        'oracle streams keep one entry per coordinate; overlaps are covered by model correspondence only']
     return ck.finish(RULE)
